@@ -29,6 +29,8 @@ SNIPPETS = [
     ("fullQ", "Baz v. Qux, 410 U.S. ___ (1974).", "FullCaseCitation", 0),  # second placeholder case, same reporter+volume
     ("fullU", "Trump v. Hawaii, 585 U.S. _ (2018).", "FullCaseCitation", 0),  # placeholder written with one underscore
     ("law", "Mass. Gen. Laws ch. 1, § 2.", "FullLawCitation", 0),
+    ("lawR1", "Minn. R. 1400.", "FullLawCitation", 0),  # two rules of one compilation: differ in one group only
+    ("lawR2", "Minn. R. 7050.", "FullLawCitation", 0),
     ("jour", "1 Minn. L. Rev. 1.", "FullJournalCitation", 0),
     ("jourP", "1 Minn. L. Rev. ___.", "FullJournalCitation", 0),
     ("shortU", "See 2 F.2d at 25.", "ShortCaseCitation", 0),
@@ -51,7 +53,7 @@ SNIPPETS = [
 ]
 NAMES = [s[0] for s in SNIPPETS]
 CORE12 = ["fullA", "fullA0", "fullA2", "fullA3", "fullB", "fullC", "fullC3", "fullP", "fullQ", "fullU", "shortAmb", "shortAmbJones", "shortP", "shortPQux", "supraBar", "refJones", "idNoPin", "idValid", "unknown"]
-CLASS = {"fullA": "A", "fullA2": "A", "fullA0": "A", "fullA3": "A", "fullB": "B", "fullC": "C", "fullC3": "C3", "fullP": "P", "fullQ": "Q", "fullU": "U", "law": "law", "jour": "jour", "jourP": "jourP"}
+CLASS = {"fullA": "A", "fullA2": "A", "fullA0": "A", "fullA3": "A", "fullB": "B", "fullC": "C", "fullC3": "C3", "fullP": "P", "fullQ": "Q", "fullU": "U", "law": "law", "lawR1": "lawR1", "lawR2": "lawR2", "jour": "jour", "jourP": "jourP"}
 PLACEHOLDER_CLASSES = ("P", "Q", "U")  # every instance is its own resource: the canonical state counts them (capped at 2)
 K = {}
 
@@ -104,7 +106,8 @@ def same_document(a, b):
             b.groups.get("page"),
         )
     if type(a) is type(b):
-        return a == b  # law / journal: eyecite's own equality (interpretation note, DESIGN section 7)
+        # law / journal: the same groups and the same candidate editions (restated, not eyecite's ==)
+        return dict(a.groups) == dict(b.groups) and sorted(e.short_name for e in a.all_editions) == sorted(e.short_name for e in b.all_editions)
     return False
 
 
